@@ -47,4 +47,26 @@ CHECKS = {
             dict(run="TestRandomGroups", checks_quick=20000, checks_thorough=300000, shards_thorough=4),
         ],
     ),
+    "C04": dict(
+        pkg="props/c04", level="exploration",
+        builds={"default": "", "unsafe": "unsafe"},
+        technique="differential property-based testing (rapid) of both codecs against an independent reference codec with a pinned schema table; round-trip; wire capture of Conn requests",
+        level_text=("Every registered API x version x direction: generated field values are encoded by the library and strictly decoded by the "
+                    "reference codec (size prefix, header, every field, no trailing bytes; byte-identical for non-flexible versions), "
+                    "reference-encoded responses (with unknown tagged fields) are decoded by the library and compared field by field, one frame consumed exactly; "
+                    "library-only round trip; both the default and the `unsafe` build of the protocol package. Exploration: values are sampled, (api,version,direction) is covered completely."),
+        level_note="trusts the pinned schema table refcodec/schema_table.go (reviewed against the Kafka message definitions; deviations listed in DESIGN.md) and the reference primitives (self-tested in setup)",
+        rule=("case = (api, version, direction, generated value tree); rapid draws api and version uniformly from the 40 registered APIs, values from boundary-biased generators "
+              "(null/empty/long strings, empty/null/>127-element arrays, int min/max, unknown tags). Non-trivial = at least one field present at that version has a non-default value; "
+              "distinct by (api, version, direction, shape of the value tree)."),
+        assumptions=["schema table pinned at the reviewed commit", "nullable strings: the library cannot express \"\" vs null; requests use null-or-non-empty, responses are compared with null==empty"],
+        units=[
+            dict(run="TestRequestEncode", checks_quick=15000, checks_thorough=400000, shards_thorough=4),
+            dict(run="TestResponseDecode", checks_quick=10000, checks_thorough=300000, shards_thorough=4),
+            dict(run="TestRoundTrip", checks_quick=10000, checks_thorough=300000, shards_thorough=2),
+            dict(run="TestRequestEncode", build="unsafe", checks_quick=6000, checks_thorough=100000),
+            dict(run="TestResponseDecode", build="unsafe", checks_quick=6000, checks_thorough=100000),
+            dict(run="TestRoundTrip", build="unsafe", checks_quick=5000, checks_thorough=100000),
+        ],
+    ),
 }
